@@ -244,8 +244,9 @@ def Frame.finalSizeC (f : Frame) : Nat := u32 (f.ppOffC + f.ppSizeC)
 def Frame.stackAdjC (f : Frame) : Nat := if f.hasDA then alignUp f.ppOffC f.finalAlign else f.ppOffC
 def Frame.saOffSpC (f : Frame) : Nat :=
   if f.hasDA then invalidOff else (if f.arch.lrId.isSome then f.finalSizeC else u32 (f.finalSizeC + f.regSize))
+/-- fixes/C07-7.patch: with a link register the frame pointer is set after the whole push/pop area is allocated -/
 def Frame.saOffSaC (f : Frame) : Nat :=
-  if f.hasFP then u32 (f.retAddrSize + f.regSize) else u32 (f.retAddrSize + f.ppSizeC)
+  if f.hasFP && f.arch.lrId.isNone then u32 (f.retAddrSize + f.regSize) else u32 (f.retAddrSize + f.ppSizeC)
 
 /-- second part of `finalize`: every layout field -/
 def Frame.layout (g : Frame) : Frame :=
